@@ -5,7 +5,12 @@ proof:   coq/theories/C08/*.v, Properties_C08.v  (point/segment distance is the 
          = minimum over the facets; point-set distance attained / symmetric / zero characterised; Hausdorff = max-min; the Frechet
          dynamic programme equals the minimum over monotone couplings; facet sequences cover every segment; branch and bound
          admissibility cited from C15)
-tie:     S  the exact oracle (DistDefs.v: dist2 / facet_dist2 / hausdorff2 / frechet2 / minclear2 over integer-scaled dyadic
+tie:     G  Distance::pointToSegment / pointToLinePerpendicular / segmentToSegment and the inline helpers they call
+            (CoordinateXY::operator==, equals2D, distance, Envelope::intersects/4) are regenerated from /repo on every run
+            (translator/units/C08.py, doubles read as REAL numbers: C08/GenPreludeR.v) and proved, for all inputs, to return THE
+            distance to / between the closed segments (C08/GenDist.v); binary64 rounding is outside these theorems and is
+            bounded by the S stream below.
+         S  the exact oracle (DistDefs.v: dist2 / facet_dist2 / hausdorff2 / frechet2 / minclear2 over integer-scaled dyadic
          coordinates, extracted to OCaml) is run beside every distance entry point of the C API on generated pairs; the returned
          doubles are compared EXACTLY over rationals (no sqrt trusted):  |v^2 - dist2| <= 2e-12 dist2,  v = 0 <=> dist2 = 0,
          symmetry, nearest points on their geometries and realising v, within-distance at v, prev(v), next(v), 0, 2v, inf.
@@ -19,6 +24,7 @@ from concurrent.futures import ThreadPoolExecutor
 from vlib.core import ROOT, BUILD, NPROC
 from gen import geoms as G
 
+GEN_UNITS = ['C08_equals2D', 'C08_coordEq', 'C08_coordDist', 'C08_envSeg', 'C08_ptSeg', 'C08_ptLinePerp', 'C08_segSeg']
 REL = Fraction(2, 10 ** 12)          # |v^2 - D| <= 2e-12 D   <=>  v within 1e-12 relative of sqrt(D)
 ROUND_C = 16                         # rounding envelope of the known finding C08-K1: |v - d| <= ROUND_C * 2^-52 * max|ordinate|
 NP_REL = Fraction(1, 10 ** 9)        # nearest points: on their geometry / realising v to 1e-9 of the ordinate magnitude
@@ -947,6 +953,9 @@ def run(ctx):
         'nearest points are accepted when within 1e-9 x the largest |ordinate| of their geometry and of realising the returned distance',
         'known finding C08-K1 accepts values outside 1e-12 relative only inside the envelope |v - d| <= %d x 2^-52 x largest |ordinate|' % ROUND_C]
     ok_build = ctx.build_repo('rel')
+    # tie G: the leaf distance functions are regenerated from /repo's Distance.cpp / Coordinate.h / Envelope.h now; a unit that no
+    # longer translates, or a theorem of C08/GenDist.v that no longer holds of the regenerated text, takes the proof-broken path
+    ctx.translate(GEN_UNITS)
     ok_coq, ax = ctx.coq_build('Properties_C08')
     drv = ctx.ocaml_driver('C08')
     hexe = os.path.join(BUILD, 'bin', 'c08')
